@@ -29,9 +29,9 @@ Verdicts(c) ==
       (* IR by harness/project.py) must still denote what the source program  *)
       (* denotes; its denoted rows are judged exactly like observed rows.     *)
       StageRows(s) ==
-        LET sp == [s.prog EXCEPT !.preds =
-                     [i \in 1..Len(s.prog.preds) |->
-                        EffectivePreds(s.prog)[s.prog.preds[i].name]]]
+        LET eff == EffectivePreds(s.prog)
+            sp == [s.prog EXCEPT !.preds =
+                     [i \in 1..Len(s.prog.preds) |-> eff[s.prog.preds[i].name]]]
             sd == DenDev(sp, dev)
         IN SelectSeq([k \in 1..Len(c.obs) |->
                         IF c.obs[k].p \in DOMAIN sd
